@@ -1,50 +1,3 @@
-(* GENERATED by tools/translate_prims.py from class CapacityLimiter in /repo's source on every run of bin/check C10. *)
-From AV Require Import Base C10Defs PrimImp LimiterImp.
-
-Definition lim_notify_next_waiter_entry : stmt :=
-  (SIf (CAnd CQueueNonEmpty CFree) (SSeq SPopItem (SSeq SAddBorrower SEventSet)) SSkip).
-
-Definition lim_release_on_behalf_of_entry : stmt :=
-  (SSeq (STry SRemoveBorrower EKey (SRaise ERuntime) SSkip) (SCall lim_notify_next_waiter_entry ArgNone)).
-
-Definition lim_release_entry : stmt :=
-  (SCall lim_release_on_behalf_of_entry ArgCurrent).
-
-Definition lim_acquire_on_behalf_of_nowait_entry : stmt :=
-  (SSeq (SIf CInBorrowers (SRaise ERuntime) SSkip) (SSeq (SIf (COr CQueueNonEmpty (CNot CFree)) (SRaise EWouldBlock) SSkip) SAddBorrower)).
-
-Definition lim_acquire_nowait_entry : stmt :=
-  (SCall lim_acquire_on_behalf_of_nowait_entry ArgCurrent).
-
-Definition lim_acquire_on_behalf_of_event_resumed : stmt :=
-  SSkip.
-
-Definition lim_acquire_on_behalf_of_event_cancelled : stmt :=
-  (SSeq SQueuePop (SSeq (SIf CEvIsSet (SSeq SDiscardBorrower (SCall lim_notify_next_waiter_entry ArgNone)) SSkip) (SRaise ECancelled))).
-
-Definition lim_acquire_on_behalf_of_yield_resumed : stmt :=
-  SSkip.
-
-Definition lim_acquire_on_behalf_of_yield_cancelled : stmt :=
-  (SSeq (SCall lim_release_on_behalf_of_entry ArgBorrower) (SRaise ECancelled)).
-
-Definition lim_acquire_on_behalf_of_entry : stmt :=
-  (SSeq SCkIf (STry (SCall lim_acquire_on_behalf_of_nowait_entry ArgBorrower) EWouldBlock (SSeq (SIf CInQueue (SRaise ERuntime) SSkip) (SSeq SNewEvent (SSeq SQueueSet (SSuspend AwEvent)))) (SSuspend AwYield))).
-
-Definition lim_total_tokens_entry : stmt :=
-  (SSeq (SIf (CAnd (CNot CValIsInt) (CNot CValIsInf)) (SRaise EType) SSkip) (SSeq (SIf CValNeg (SRaise EValue) SSkip) (SSeq SStoreTotal (SWhile QQueue (CAnd CQueueNonEmpty CFree) (SSeq SPopItem (SSeq SAddBorrower SEventSet)))))).
-
-Definition lim_total_tokens_getter : expr := XTotal.
-
-Definition lim_borrowed_tokens_getter : expr := XLenBorrowers.
-
-Definition lim_available_tokens_getter : expr := (XSub XTotal XLenBorrowers).
-
-Definition lim_statistics_args : list expr := [XLenBorrowers; XTotal; XBorrowers; XLenQueue].
-
-Definition lim_prog : prog :=
-  mkprog lim_acquire_on_behalf_of_entry lim_acquire_on_behalf_of_yield_resumed
-         lim_acquire_on_behalf_of_yield_cancelled lim_acquire_on_behalf_of_event_resumed
-         lim_acquire_on_behalf_of_event_cancelled lim_acquire_on_behalf_of_nowait_entry
-         lim_release_on_behalf_of_entry lim_total_tokens_entry lim_acquire_nowait_entry lim_release_entry
-         lim_total_tokens_getter lim_borrowed_tokens_getter lim_available_tokens_getter lim_statistics_args.
+(* translator refused *)
+From AV Require Import Base PrimImp.
+Definition refused : False := "translate_prims REFUSED: lim_notify_next_waiter: line 2235: unsupported condition `self.available_tokens`".
